@@ -99,7 +99,13 @@ inline bool compare_with_model(Ctx& X, const std::string& who, const std::string
   }
   c.count("cmp." + who + ".diag_subset");
   c.count("emitted.zero_length_pairs", dg.size());
-  if (!dg.empty()) {
+  if (!dg.empty() && who.compare(0, 4, "line") == 0) {
+    // the 1-D routine documents that values which would only form pairs of length 0 do not appear in its output, and
+    // the property asks for exactly the non-zero-length intervals: a zero-length pair from the line routine is a violation
+    // (the rectangle routine does emit diagonal points, which its only caller filters: those are only checked for being real)
+    X.violation(who + ".zero_length_emitted", sig, [&] { return "input " + input_txt + " emitted zero-length pairs " + oracle::show(dg); });
+    ok = false;
+  } else if (!dg.empty()) {
     auto bad = ms_minus(dg, E.diag);
     if (!bad.empty()) {
       X.violation(who + ".diag_subset", sig + ",dim" + vh::str(bad[0].dim), [&] { return "input " + input_txt + " emitted zero-length pairs " + oracle::show(dg) + " but the filtration only has " + oracle::show(E.diag); });
